@@ -18,6 +18,7 @@ import traceback
 
 HERE = os.path.dirname(os.path.dirname(os.path.abspath(__file__)))
 NPROC = int(os.environ.get("VERIF_NPROC", "16"))
+OUT = os.environ.get("VERIF_OUT") or HERE      # scratch output root for mutation runs; the registered commands use /verif itself
 SCHEMA_PATHS = [os.path.join(HERE, "schemas", "EVIDENCE.schema.json"), "/root/.vp/EVIDENCE.schema.json"]
 
 
@@ -265,14 +266,14 @@ def load_known(pid):
 
 def write_replay(pid, bucket, info, seed, tier, sub="new"):
     from .common import jsonable
-    d = os.path.join(HERE, "replays", sub)
+    d = os.path.join(OUT, "replays", sub)
     os.makedirs(d, exist_ok=True)
     h = hashlib.sha1(bucket.encode()).hexdigest()[:10]
     path = os.path.join(d, f"{pid}-{h}.json")
     with open(path, "w") as fh:
         json.dump(jsonable(dict(property=pid, bucket=bucket, msg=info.get("msg"), mag=info.get("mag"),
                                 seed=seed, tier=tier, case=info["case"])), fh, indent=1, sort_keys=True)
-    return os.path.relpath(path, HERE)
+    return os.path.relpath(path, OUT)
 
 
 def run_replay_file(mod, path):
@@ -459,8 +460,8 @@ def main(argv=None):
         if schema is not None:
             import jsonschema
             jsonschema.validate(ev, schema)
-        os.makedirs(os.path.join(HERE, "evidence"), exist_ok=True)
-        with open(os.path.join(HERE, "evidence", f"{pid}.json"), "w") as fh:
+        os.makedirs(os.path.join(OUT, "evidence"), exist_ok=True)
+        with open(os.path.join(OUT, "evidence", f"{pid}.json"), "w") as fh:
             json.dump(ev, fh, indent=1, sort_keys=True)
     except Exception:
         traceback.print_exc()
